@@ -273,9 +273,12 @@ def decodeAll : List (List Nat) → Outcome (List Nat)
   | [] => .ok []
   | f :: fs => (b62dec f).bind fun v => (decodeAll fs).bind fun vs => .ok (v :: vs)
 
-/-- `Metadata.UnmarshalString`: the seven totals, in the order of `suffixFields` -/
+/-- `Metadata.UnmarshalString`: the seven totals, in the order of `suffixFields`; a field with a byte
+    beyond 'z' (the end of the decoder's table) is refused (fix of C06) -/
 def unmarshalString (s : List Nat) : Outcome (List Nat) :=
-  if (splitOn delimDash s).length ≠ 7 then .err "fields" else decodeAll (splitOn delimDash s)
+  if (splitOn delimDash s).length ≠ 7 then .err "fields" else
+  if (splitOn delimDash s).any (fun f => f.any (fun c => c > 122)) then .err "fields" else
+  decodeAll (splitOn delimDash s)
 
 def bytesToString (bs : List Nat) : String := String.ofList (bs.map Char.ofNat)
 
